@@ -254,6 +254,7 @@ def check_C07(tier, seed):
         ev = run_hx(["push", "str:multi"], lines)          # the events Parser::load hands to the loader
         ld = run_hx(["load", "yaml", "eager"], lines)
         ldo = run_hx(["load", "owned", "eager"], lines)
+        api = run_bin("hx_c07", ["api"], lines)             # the public entry points load_from_str / _iter / _parser
         pipe = run_mx(["load"], lines)                      # whole model: scanner + parser(load mode) + loader
         acc = [i for i in range(len(cases)) if split_line(ev[i])[1] == "OK"]
         mx = run_mx(["all"], [ev[i].rsplit("|", 1)[0] for i in acc], tag="C07")
@@ -269,6 +270,12 @@ def check_C07(tier, seed):
                 continue
             if ldo[i] != ld[i]:
                 res.add_violation("Yaml and YamlOwned load differently", case, yaml=ld[i][-400:], owned=ldo[i][-400:])
+            # load_from_str / load_from_iter / load_from_parser are wired to the same loader (error texts of the
+            # char-iterator back-end are C10's business: only the verdict and the documents are compared there)
+            a = api[i].split("|")
+            if len(a) != 6 or a[5] != ld[i] or any((x[:2] != ld[i][:2]) or (x.startswith("OK") and x != ld[i]) for x in (a[0], a[4])):
+                res.add_violation("load_from_str / load_from_iter / load_from_parser return other documents than the "
+                                  "loader driven by Parser::load", case, api=api[i][-500:], load=ld[i][-300:])
             if fin != "OK":
                 verdicts["rejected"] += 1
                 # a load fails exactly when the parser reports an error, and with that error
@@ -367,6 +374,12 @@ def check_C07(tier, seed):
         for j in (1, len(sents) // 2, len(sents) - 3):
             if 0 <= j < len(sents):
                 res.samples.append(dict(sentence=strip_spans(sents[j])[:300], loaded=si[j].split("|")[0][:300]))
+    if tier == "thorough" and proof.get("ok"):
+        with core.Lock():
+            ok, out = core.coqchk("C07")
+        res.coverage["coqchk"] = "ok" if ok else "FAILED"
+        if not ok:
+            res.add_tie_break("coqchk rejects the compiled proofs", error=out[-1500:])
     rule = ("(1) the C01 input space (exhaustive small strings, token/line soups, yaml-test-suite variants, mutated suite, "
             "directed texts): accepted inputs are loaded and compared with the extracted specification applied to the "
             "implementation's own events; rejected inputs must fail to load with the parser's error; (2) synthetic event "
